@@ -24,9 +24,13 @@ def run (s : Sexp) : String :=
     match parseX xs with
     | some ops =>
       let st := runXS schema Quirks.asIs (St.init lifo) ops
-      let m := showObs st.relObs
-      let mr := showObs (runXS schema Quirks.none (St.init lifo) ops).relObs
-      let sp := showObs (specRunX schema Quirks.asIs ops).relObs
+      let str := runXS schema Quirks.none (St.init lifo) ops
+      let sps := specRunX schema Quirks.asIs ops
+      -- an adopted container whose donor is still alive is shared by two instances: outside the model
+      let sk := fun (b : Bool) (x : String) => if b then "skip" else x
+      let m := sk (aliased st.h) (showObs st.relObs)
+      let mr := sk (aliased str.h) (showObs str.relObs)
+      let sp := sk (aliased sps.h) (showObs sps.relObs)
       let trig := joinTrig [(st.deadHit, "F-C14-2")]
       s!"model={m}\tspec={sp}\ttrig={trig}\tmodel_repaired={mr}"
     | none => "error=bad-case"
